@@ -324,6 +324,9 @@ func (e *Engine) classify(fn *ssa.Function) string {
 			return "verif:verifAbstractSlice"
 		}
 	}
+	if tgt, ok := e.redirect[key]; ok {
+		return "redirect:" + tgt
+	}
 	if _, ok := intrinsics[key]; ok {
 		return key
 	}
